@@ -904,6 +904,29 @@ fn oracle_update_scaling(r: &Req, out: &str) -> Result<(), String> {
     let mu = r.f("mu");
     let dual = r.b("dual");
     let iz = cm.info(&z, true);
+    if let ConeMath::Gen(..) = &cm {
+        // the barrier derivatives exist only at interior dual points: on or outside the
+        // boundary (and on NaN input) the update must be refused and the state kept
+        let nan = z.iter().any(|v| v.is_nan());
+        if nan || iz.member == Some(false) {
+            let o = resp(out).ok_or(format!("update_scaling panicked on a non-interior dual point: {}", out))?;
+            if o.b("ok") {
+                return Err("update_scaling accepted a dual point that is not in the interior of K*".into());
+            }
+            let k0 = prepared(r);
+            let same = |a: &[f64], b: &[f64]| a.len() == b.len() && a.iter().zip(b).all(|(x, y)| x.to_bits() == y.to_bits());
+            if !same(&o.fs("grad"), &k0.grad()) || !same(&o.fs("z"), &k0.zstored()) {
+                return Err("a refused update_scaling changed the stored gradient / scaling point".into());
+            }
+            return Ok(());
+        }
+        if iz.member == Some(true) {
+            match resp(out) {
+                Some(o) if o.b("ok") => {}
+                _ => return Err(format!("update_scaling refused / failed on an interior dual point: {}", out.chars().take(80).collect::<String>())),
+            }
+        }
+    }
     if iz.member != Some(true) || iz.kappa > 1e5 {
         return Ok(());
     }
@@ -1510,6 +1533,20 @@ fn gen_for_cone(s: &mut Session, cm: &ConeMath, reps: usize) {
         let dual = s.rng.bool(0.35);
         let l = maybe_zprev(s, cm, base(cm, "update_scaling"));
         s.submit(l.fs("s", &sp).fs("z", &z).f("mu", mu).b("dual", dual).fs("x", &x).done());
+        // non-interior dual points: exterior, boundary-grazing, wrong sign / zero, NaN
+        if s.rng.bool(0.25) {
+            let mut zb = anypoint(&mut s.rng, cm, true);
+            let u = s.rng.unit();
+            if u < 0.15 {
+                let i = s.rng.below(zb.len());
+                zb[i] = f64::NAN;
+            } else if u < 0.4 {
+                // a point placed on the boundary up to rounding
+                zb = point(&mut s.rng, cm, true, 0.0, -2.0, 2.0);
+            }
+            let l = maybe_zprev(s, cm, base(cm, "update_scaling"));
+            s.submit(l.fs("s", &sp).fs("z", &zb).f("mu", mu).b("dual", true).fs("x", &x).done());
+        }
 
         // third-order correction
         if three {
@@ -1621,6 +1658,14 @@ fn generate(s: &mut Session) {
     // constructor checks of the generalised power cone
     for (al, d2) in [(vec![0.3, 0.7], 2usize), (vec![1.0], 1), (vec![0.5, 0.6], 1), (vec![0.5, 0.5, 0.0], 1), (vec![1.5, -0.5], 2), (vec![0.2, 0.3, 0.5], 0)] {
         s.submit(Line::new("genpow.new").fs("alpha", &al).u("dim2", d2).done());
+    }
+    // exact boundary / exterior / NaN dual points for the generalised power cone's update
+    {
+        let cm = ConeMath::Gen(vec![0.5, 0.5], 1);
+        for z in [[1.0, 1.0, 2.0], [1.0, 1.0, 2.5], [1.0, 1.0, 1.5], [1.0, 0.0, 0.0], [1.0, f64::NAN, 0.1], [-1.0, 1.0, 0.0]] {
+            s.submit(base(&cm, "update_scaling").fs("s", &[1.0, 1.0, 0.0]).fs("z", &z).f("mu", 1.0).b("dual", true).fs("x", &[1.0, 2.0, 3.0]).done());
+            s.submit(base(&cm, "update_scaling").fs("zprev", &[1.0, 1.2, 0.2]).fs("s", &[1.0, 1.0, 0.0]).fs("z", &z).f("mu", 2.0).b("dual", true).fs("x", &[1.0, 2.0, 3.0]).done());
+        }
     }
     // fixed exponents / textbook points
     for a in [0.5, 0.3] {
